@@ -123,7 +123,7 @@ class Director:
             self.by_key[k].append((i, st))
         self.conv = {}
         self.cvec = {}
-        self.vector_couplers = {a["name"] for a in self.plan["config"].get("actors", []) if a.get("vectorCoupler")}
+        self.vector_couplers = {a["name"]: a["vectorCoupler"] for a in self.plan["config"].get("actors", []) if a.get("vectorCoupler")}
         for a in self.plan["config"]["actors"]:
             sc = a.get("conv") or {}
             self.conv[a["name"]] = {tuple(int(x) for x in k.split(",")): v for k, v in sc.items()}
@@ -212,6 +212,11 @@ class Director:
     def coupling_value(self, actor):
         if actor.name in self.vector_couplers:
             # an interface that hands out its own list and keeps updating it in place
+            if self.vector_couplers[actor.name] == "nested":
+                # a table (list of rows); the rows are the interface's own and are updated in place
+                tab = self.cvec.setdefault(actor.name, [[0.0, 1.0], [2.0, 3.0]])
+                tab[0][0] = float(self.cval[actor.name])
+                return tab
             vec = self.cvec.setdefault(actor.name, [0.0, 1.0])
             vec[0] = float(self.cval[actor.name])
             return vec
@@ -313,6 +318,7 @@ def build_life(cfg, scratch, life, director, extra_settings=None):
     if extra_settings:
         new.update(extra_settings)
     armiboot.SCENARIO["actors"] = cfg["actors"]
+    armiboot.SCENARIO["helpers"] = cfg.get("helpers", [])
     armiboot.SCENARIO["director"] = director
     armiboot.SCENARIO["_classes"] = {}
     try:
